@@ -1,5 +1,5 @@
 (* Property C13 -- already-valid values pass through unmarshal unchanged; unmarshal is idempotent.
-   Only the property theorems.  Model: Model/Core.v (unm), Model/CoreValid.v (valid, stable,
+   Only the property theorems.  Model: Model/Core.v (unm), Model/CoreValid.v (valid,
    optional_only, the laws);  scripts: Proofs/CoreC13.v, Proofs/CoreC13Toy.v.
 
    All theorems are for EVERY runtime rt (the scalar routines, text loading, None routine: laws stated
@@ -25,14 +25,10 @@ Definition C13_full_idempotent : Prop :=
 Theorem C13_passthrough : C13_full_passthrough.
 Proof. exact passthrough. Qed.
 
-(* also for values that stop early in a fixed tuple (what zip lets through) *)
-Theorem C13_passthrough_stable : forall rt E lv, PassLaws rt lv -> wf_env E ->
-  forall n T v, optional_only E n T = true -> stable lv rt E n T v = true ->
-  exists m, forall fuel, m <= fuel -> unm rt E fuel T v = Ok v.
-Proof. exact passthrough_stable. Qed.
-
-Theorem C13_valid_stable : forall rt E lv n T v, valid lv rt E n T v = true -> stable lv rt E n T v = true.
-Proof. exact valid_stable. Qed.
+(* validity is monotone in the fuel (fuel only bounds how deep the check looks) *)
+Theorem C13_valid_fuel_mono : forall rt E lv n m T v,
+  n <= m -> valid lv rt E n T v = true -> valid lv rt E m T v = true.
+Proof. exact valid_fuel_mono. Qed.
 
 Example C13_passthrough_ex :
   valid toy_lv toy_rt toy_E 9 toy_T toy_v = true /\ optional_only toy_E 9 toy_T = true /\
@@ -43,11 +39,11 @@ Proof.
 Qed.
 
 (* ---- idempotence ---- *)
-(* whatever unm returns is stable: its leaves are fixed points of their routines, every container and
-   class instance is of exactly the annotated class *)
-Theorem C13_results_stable : forall rt E, IdemLaws rt -> wf_env E -> DefaultsConform rt E ->
+(* whatever unm returns is valid w.r.t. the leaf predicate "fixed point of its own routine": every
+   container and class instance is of exactly the annotated class and arity *)
+Theorem C13_results_valid : forall rt E, IdemLaws rt -> wf_env E -> DefaultsConform rt E ->
   forall n T x y, optional_only E n T = true -> unm rt E n T x = Ok y ->
-  exists k, stable (fixlv rt) rt E k T y = true.
+  exists k, valid (fixlv rt) rt E k T y = true.
 Proof. exact unm_results_stable. Qed.
 
 (* guard: every default of every class conforms to its own annotation *)
@@ -97,9 +93,8 @@ Proof.
 Qed.
 
 Print Assumptions C13_passthrough.
-Print Assumptions C13_passthrough_stable.
-Print Assumptions C13_valid_stable.
-Print Assumptions C13_results_stable.
+Print Assumptions C13_valid_fuel_mono.
+Print Assumptions C13_results_valid.
 Print Assumptions C13_idempotent.
 Print Assumptions C13_defaults_guard_sound.
 Print Assumptions C13_wf_guard_sound.
